@@ -1811,6 +1811,43 @@ package badger
 //@   assert[top-inputs-deleted] before call newDeleteChange#1 : arg0 == ret(ID#2) && !table.IsInmemory
 //@   assert[bottom-inputs-deleted] before call newDeleteChange#2 : arg0 == ret(ID#3)
 
+// overlappingTables: the tables of a sorted level that intersect a key range are those from the
+// first whose biggest key is at or after the range's left end up to (not including) the first
+// whose smallest key is after its right end; an empty range intersects nothing.
+//@ func (*levelHandler).overlappingTables
+//@   props C12 C14
+//@   light
+//@   assert[empty-range-overlaps-nothing] before return#1 : result0 == 0 && result1 == 0 && (len(kr.left) == 0 || len(kr.right) == 0)
+//@   assert[both-searches-over-all-tables] before call Search : arg0 == len(s.tables)
+//@   assert[half-open-interval] before return#2 : result0 == ret(Search#1) && result1 == ret(Search#2)
+
+//@ func (*levelHandler).overlappingTables.$1
+//@   props C12 C14
+//@   requires s != nil && 0 <= i && i < len(s.tables) && s.tables[i] != nil
+//@   domain len(kr.left) >= 8 && len(s.tables[i].biggest) >= 8
+//@   ensures[left-end-at-or-before-biggest] result <==> keycmp(kr.left, s.tables[i].biggest) <= 0
+//@   assigns nothing
+
+//@ func (*levelHandler).overlappingTables.$2
+//@   props C12 C14
+//@   requires s != nil && 0 <= i && i < len(s.tables) && s.tables[i] != nil
+//@   domain len(kr.right) >= 8 && len(s.tables[i].smallest) >= 8
+//@   ensures[right-end-before-smallest] result <==> keycmp(kr.right, s.tables[i].smallest) < 0
+//@   assigns nothing
+
+// getKeyRange: the range of a set of tables runs from the first possible version of the
+// smallest user key to the last possible version of the biggest one.
+//@ func getKeyRange
+//@   props C12 C14
+//@   light
+//@   assert[left-is-first-version-of-smallest] before call KeyWithTs#1 : arg0 == ret(ParseKey#1) && arg1 == ^uint64(0)
+//@   assert[right-is-last-version-of-biggest] before call KeyWithTs#2 : arg0 == ret(ParseKey#2) && arg1 == 0
+//@   assert[smallest-key] before call ParseKey#1 : arg0 == smallest
+//@   assert[biggest-key] before call ParseKey#2 : arg0 == biggest
+//@   assert[smaller-replaces] before assign smallest#2 : ret(CompareKeys#1) < 0
+//@   assert[bigger-replaces] before assign biggest#2 : ret(CompareKeys#2) > 0
+//@   assert[no-tables-empty-range] before return#1 : len(tables) == 0 && len(result.left) == 0 && len(result.right) == 0
+
 // ---- call-order rules that recovery relies on (C08, C10): ordering obligations only ----
 // Neither property is decided (a crash point is a cut through the effects of several
 // goroutines; a power loss needs a model of which writes survive). What is checked is that the
